@@ -238,7 +238,8 @@ def run(ctx):
                     scaled = f_ * net["params"]["sigma-apr"] / sd_
                     impl_excluded = len(k1) < sum(len(c["obs"]) for c in net["clusters"])
                     # the recorded finding: the threshold is applied to the weight-scaled absolute term
-                    if abs(sd_ - net["params"]["sigma-apr"]) > 1e-9 and impl_excluded == (scaled > 1.0) and abs(scaled - 1.0) > 0.02:
+                    # (at scaled = 1 the weight-scaled threshold is met exactly: either decision is that of the recorded rule)
+                    if abs(sd_ - net["params"]["sigma-apr"]) > 1e-9 and (abs(scaled - 1.0) <= 0.02 or impl_excluded == (scaled > 1.0)):
                         key = "C14:abs-term-weight-scaled"
                 if ctx.violation({"kind": "E:exclusion", "gkf": txt1, "gkf_deleted": txt2, "what": what, "algorithm": a, "tol_abs": tol_abs, "differences": dd[:6]},
                                  "%s (%s, tol-abs %g): %s" % (what, a, tol_abs, dd[0]), key=key):
